@@ -1,6 +1,11 @@
 CFG = {
-    "modules": ["Parsley.Props.C02"],
-    "theorems": [],
+    "modules": ["Parsley.Props.C02", "Parsley.Props.C16"],
+    "theorems": ["Parsley.C02.name_window_decoder_eq", "Parsley.C02.name_spelling_decodes", "Parsley.C02.name_roundtrip",
+                 "Parsley.C16.parse_never_panics", "Parsley.C16.obj_loc"],
+    "partial": {"(spell_parse)": "the composite theorem `parseObj (spell v ch ++ ctx) = v` for all values/choices/contexts is not proved yet; "
+                "proved so far: the name token at full strength (windowed decoder = declarative #hh decoder; every raw/#hh spelling with any hex case decodes to the name; "
+                "whole-token round trip in any terminator context), plus cursor=end/no-panic for every input (C16). Numbers, strings, references, arrays and "
+                "dictionaries are decided by the spelling-generator correspondence (oracle = the value that was spelled)."},
     "n": {"quick": 4000, "thorough": 150000},
     "exhaustive": {"quick": False, "thorough": False},
     "rule": "random values (depth <= 4; boundary integers, reals, names/strings over delimiters, escapes and high bytes, references, arrays, "
@@ -14,5 +19,8 @@ CFG = {
 LEVEL = {
     "design_ref": "DESIGN.md 3.C02/C16",
     "technique": "Lean 4 token round-trip theorems over an executable model + spelling-generator differential correspondence",
-    "text": "placeholder",
+    "text": "Machine-checked proof that the name decoder (the windows(3) loop as written) equals the declarative #hh decoder on every span and that every "
+            "raw/#hh spelling of every null-free byte string, in any hex case, followed by any terminator context, parses to exactly that name with the cursor "
+            "after its last byte; for the other token kinds and the composite objects the property is decided on the real code by an oracle that knows the value "
+            "that was spelled (random values x random encoder choices x contexts), with the executable model tied to the parser by the same run.",
 }
